@@ -29,18 +29,20 @@ def run(prog, chk):
         "no anchor coordinate is dropped or defaulted by a truthiness test: 0 is a legitimate coordinate (R06.9)",
         "every glyph is a candidate base of some mark feature: the abvm / not-abvm sets cover the glyph set on every path, mark/mkmk use the second and abvm/blwm the first (R06.10)",
         "markGlyphNames holds exactly the glyphs that got a mark class (same guards as the class insertion) (R06.11)",
+        "aliased list padding ([[]] * n) is never mutated through an element (R06.12)",
     ]
     chk.not_decided += ["the offsets a shaper computes", "lookup grouping / graph colouring result", "which script a glyph is routed to (abvm / blwm classification data)", "contextual anchors' generated rules"]
-    r061(prog, chk)
-    r062(prog, chk)
-    r063(prog, chk)
-    r064(prog, chk)
-    r065(prog, chk)
-    r066(prog, chk)
-    r067(prog, chk)
-    r068(prog, chk)
-    r0610(prog, chk)
-    r0611(prog, chk)
+    chk.guard(r061, prog, chk)
+    chk.guard(r062, prog, chk)
+    chk.guard(r063, prog, chk)
+    chk.guard(r064, prog, chk)
+    chk.guard(r065, prog, chk)
+    chk.guard(r066, prog, chk)
+    chk.guard(r067, prog, chk)
+    chk.guard(r068, prog, chk)
+    chk.guard(r0610, prog, chk)
+    chk.guard(r0611, prog, chk)
+    chk.guard(r0612, prog, chk)
     from .rounding import check_no_truthiness_on_coordinates
     n = check_no_truthiness_on_coordinates(prog, chk, "R06.9", [MARK, "ufo2ft.featureWriters.baseFeatureWriter"])
     need(n >= 40, "truthiness scan found too few tests")
@@ -533,7 +535,47 @@ def r0611(prog, chk):
     chk.minimum("R06.11", 1)
 
 
+# ----------------------------------------------------------------------------- R06.12
+def r0612(prog, chk):
+    """`[[]] * n` makes n references to ONE list.  That is fine as long as elements are
+    only replaced (L[i] = ...); appending to an element (L[i].append(...)) changes all
+    the padding components at once - anchors would attach to several ligature components."""
+    ix = prog.ix
+    mi = ix.get_module(MARK)
+    n = 0
+    for fi in ix.functions.values():
+        if fi.module is not mi:
+            continue
+        pads = [x for x in A.body_nodes(fi.node) if isinstance(x, ast.BinOp) and isinstance(x.op, ast.Mult)
+                and any(isinstance(side, ast.List) and len(side.elts) == 1 and isinstance(side.elts[0], (ast.List, ast.Dict, ast.Set)) for side in (x.left, x.right))]
+        for pad in pads:
+            n += 1
+            # the list the padding flows into
+            par = ix.parent(pad)
+            target = None
+            if isinstance(par, ast.Assign) and isinstance(par.targets[0], ast.Name):
+                target = par.targets[0].id
+            elif isinstance(par, ast.Call) and isinstance(par.func, ast.Attribute) and par.func.attr in ("extend", "__iadd__") and isinstance(par.func.value, ast.Name):
+                target = par.func.value.id
+            elif isinstance(par, ast.AugAssign) and isinstance(par.target, ast.Name):
+                target = par.target.id
+            bad = []
+            if target is not None:
+                for c in A.body_nodes(fi.node):
+                    if isinstance(c, ast.Call) and isinstance(c.func, ast.Attribute) and c.func.attr in ("append", "extend", "insert", "add", "update", "setdefault") \
+                            and isinstance(c.func.value, ast.Subscript) and isinstance(c.func.value.value, ast.Name) and c.func.value.value.id == target:
+                        bad.append(c)
+            ok = target is not None and not bad
+            chk.ob("R06.12", f"{fi.short}|{A.keytext(fi.node, pad)}", ok, where(fi, pad), detail="padding elements are only ever replaced, never mutated in place",
+                   message=f"{fi.short}: `{T(pad, 40)}` creates aliased padding lists and `{T(bad[0], 50) if bad else '?'}` mutates an element in place: every padded ligature component "
+                           f"receives the anchor")
+    chk.ob("R06.12", "aliased list padding is never mutated through an element", True, "", detail=f"{n} padding expression(s) examined", nontrivial=False)
+    chk.minimum("R06.12", 2)
+
+
 MUTANTS = [
+    M("ligature components padded with aliased lists that are appended to (seeded C06d)", "ufo2ft/featureWriters/markFeatureWriter.py", "MarkFeatureWriter._makeMarkToLigaAttachments",
+      "ligatureMarks = []", "ligatureMarks = []\nligatureMarks.extend([[]] * 3)\nligatureMarks[0].append(None)", rule="R06.12"),
     M("glyphs recorded as marks before the GDEF mark filter (seeded C06c)", "ufo2ft/featureWriters/markFeatureWriter.py", "MarkFeatureWriter._groupMarkGlyphsByAnchor",
       "if gdefMarks is not None and glyphName not in gdefMarks:\n    continue", "markGlyphNames.add(glyphName)\nif gdefMarks is not None and glyphName not in gdefMarks:\n    continue", rule="R06.11"),
     M("class name not carried over after a clash (seeded C06b)", "ufo2ft/featureWriters/markFeatureWriter.py", "MarkFeatureWriter._makeMarkClassDefinitions",
